@@ -308,6 +308,7 @@ func runC13(c *core.Ctx, r *core.Reporter) {
 	c13callers(c, r)
 	c13foreign(c, r)
 	c13owner(c, r)
+	c13internal(c, r)
 	an := lenflow.New(c)
 	const push = "C13.push"
 	const own = "C13.own"
